@@ -143,7 +143,8 @@ def judge_case(run, case, res):
     if o == 'harness_mismatch':
         run.inconclusive.append('integrity plan table and object-graph walk disagree for %s%r fault=%r (walker=%d)' % (case['block'], case['cfg'], f, res['walker']))
         return False
-    fields = dict(outcome=o, fault=kind, dir=f.get('dir'), dut_structural=res['info']['dut_structural'])
+    fields = dict(outcome=o, fault=kind, dir=f.get('dir'), dut_structural=res['info']['dut_structural'],
+                  driver_not_registered=bool(res.get('driver_not_registered')))
     run.violation('c11_integrity_' + o, fields, case, expected='raise' if res['expected'] else 'return', observed=res['raised'] or 'returned',
                   what='checkIntegrity %s: %s%r depth=%d check_at=%d fault=%r -> %s' % (o, case['block'], case['cfg'], case['depth'], case['check_at'], f, res['raised'] or 'returned'))
     return False
